@@ -217,7 +217,7 @@ fn pick_program(r: &mut Rng, fx: &[String]) -> (String, &'static str) {
 }
 
 /// script variables that share a name with a library global (C14: the name must not matter)
-const LIBNAMED: [&str; 14] = [
+const LIBNAMED: [&str; 16] = [
     "local math = {}\nx, math.y = 1, 2\nprint(math)\n",
     "local function f(table)\n  y, table.z = 1, 2\n  return table\nend\nprint(f)\n",
     "local os = {}\n_G.q, os.clock = 1, 2\nprint(os)\n",
@@ -233,6 +233,9 @@ const LIBNAMED: [&str; 14] = [
     "local function f(inf, nan)\n  local t = { [inf] = 1, [nan] = 2, [-inf] = 3 }\n  for i = #t, -inf do print(t[i]) end\n  return inf / nan, 1 / inf\nend\nprint(f)\n",
     "local e1, x1 = 1, 2\nlocal t = {}\nfor i = #t, e1 do print(i) end\nfor i = #t, -x1 do print(i) end\nprint(e1 / x1)\n",
     "local aorb, a, b = 1, 2, 3\nlocal x\nx = a or b\naorb = x\nprint(aorb, x)\n",
+    // names that are prefixes of one another, in the places where lints compare or print code text
+    "local item, items = 1, { 2 }\nitem = items\nitems = item\nprint(item, items)\n",
+    "local node, nodes = {}, {}\nnode.next = nodes.next\nnodes.next = node.next\nif node then print(1) elseif nodes then print(2) elseif node then print(3) end\n",
 ];
 
 const RESERVED: [&str; 12] = ["self", "_G", "_", "type", "typeof", "require", "game", "script", "workspace", "plugin", "shared", "_ENV"];
@@ -328,7 +331,7 @@ pub fn generate_c13(seed: u64, n: usize, _thorough: bool) -> Cases {
     let fx = fixtures();
     // systematic: every template x every token x {space, block comment} after the token
     let ck_roblox: Checker<toml::value::Value> = Checker::new(CheckerConfig::default(), StandardLibrary::roblox_base()).unwrap();
-    const ROBLOX_TEMPLATES: [&str; 10] = [
+    const ROBLOX_TEMPLATES: [&str; 12] = [
         "local u = UDim2.new(-1, 0, -1, 0)\nprint(u)\n",
         "local c = Color3.new(-1, 2.5, t[1])\nprint(c)\n",
         "local u = UDim2.new(0, -5, 0, (5))\nprint(u)\n",
@@ -339,6 +342,8 @@ pub fn generate_c13(seed: u64, n: usize, _thorough: bool) -> Cases {
         "local u = UDim2.new(1, 1)\nprint(u)\n",
         "local u = UDim2.new(0.5, 10, 0.5, 10)\nprint(u)\n",
         "local c = Color3.new(0.5, 1, 2)\nprint(c)\n",
+        "local function clone(t)\n  local r = {}\n  -- selene: allow(manual_table_clone)\n  for k, v in pairs(t) do\n    r[k] = v\n  end\n  return r\nend\nprint(clone)\n",
+        "local function clone(t)\n  local r = {}\n  for k, v in pairs(t) do\n    r[k] = v\n  end\n  return r\nend\nprint(clone)\n",
     ];
     for (src, ckr) in TEMPLATES.iter().map(|s| (s, &ck)).chain(ROBLOX_TEMPLATES.iter().map(|s| (s, &ck_roblox))) {
         let ck = ckr;
@@ -346,6 +351,27 @@ pub fn generate_c13(seed: u64, n: usize, _thorough: bool) -> Cases {
         let mut ends: Vec<usize> = ast.tokens().map(|t| t.token().end_position().bytes()).filter(|e| *e > 0).collect();
         ends.sort();
         ends.dedup();
+        // an ordinary comment line before every token that starts a line (also between a filter comment and its statement)
+        let mut line_starts: Vec<usize> = ast
+            .tokens()
+            .map(|t| t.token().start_position().bytes())
+            .filter_map(|st| {
+                let ls = src[..st].rfind('\n').map(|p| p + 1).unwrap_or(0);
+                if src[ls..st].trim().is_empty() { Some(ls) } else { None }
+            })
+            .collect();
+        line_starts.sort();
+        line_starts.dedup();
+        for ls in line_starts {
+            let text = "-- note\n";
+            let twin = format!("{}{}{}", &src[..ls], text, &src[ls..]);
+            let ds2 = match lint_v(ck, &twin, ckr as *const _ == &ck_roblox as *const _) { Some(x) => x.1, None => continue };
+            cases.push(
+                format!("CTrivia [({}%N, {}%N)] {} {}", ls, text.len(), diag_list_term(&canon(&ds, None)), diag_list_term(&canon(&ds2, None))),
+                json!({"kind": "trivia-systematic", "origin": "template", "source": src, "twin": twin,
+                       "insertions": [[ls, text, "line-before"]], "diagnostics": ds.len(), "nontrivial": !ds.is_empty()}),
+            );
+        }
         for e in ends {
             for text in [" ", " --[[c]]"] {
                 let twin = format!("{}{}{}", &src[..e], text, &src[e..]);
